@@ -122,6 +122,19 @@ class RefHeap:
         return str(v)
 
 
+def reaches(a, b, depth=0):
+    """does container a contain (transitively) container b"""
+    if a is b:
+        return True
+    if depth > 20:
+        return True
+    if isinstance(a, list):
+        return any(reaches(x, b, depth + 1) for x in a)
+    if isinstance(a, dict):
+        return any(reaches(x, b, depth + 1) for x in a.values())
+    return False
+
+
 def gen_alias_program(rng, nops):
     """returns (source, expected rendering of the final tuple of all variables)"""
     ref = RefHeap()
@@ -206,8 +219,9 @@ def gen_alias_program(rng, nops):
             t = rng.choice(ms)
             k = rng.choice("abk")
             src = rng.choice(ls)
-            ref.vars[t][k] = ref.vars[src]
-            lines.append(f"{t}['{k}'] = {src}")
+            if not reaches(ref.vars[src], ref.vars[t]):
+                ref.vars[t][k] = ref.vars[src]
+                lines.append(f"{t}['{k}'] = {src}")
         elif op == "concat" and len(ls) >= 1:
             a, b = rng.choice(ls), rng.choice(ls)
             n = newname()
